@@ -2,10 +2,16 @@ import EV.Model.Merkle
 
 /-
 Model of the header merkle cache (`DB.header_mc : MerkleCache` over `DB.fs_block_hashes`) with any
-number of concurrent header-proof requests and chain reorganisations (C11; F7, F17, F18, F19).
+number of concurrent `blockchain.block.header(height, cp_height)` / `blockchain.block.headers(start,
+count, cp_height)` requests - the WHOLE handlers: header read, then proof, then the consistency
+check of the reply - and chain reorganisations (C11; F7, F17, F18, F19, F24).
 
 Code modelled, literally:
-  session.py  `_merkle_proof`           range check `height <= cp_height <= db.state.height`
+  session.py  `block_header`, `block_headers` (after argument validation and the `MAX_CHUNK_SIZE`
+              clamp, which are C16/C17's; cost accounting is not modelled), `SessionManager.raw_header`
+              `_merkle_proof`           range check `height <= cp_height <= db.state.height`, the
+                                        proof, `root_from_proof(header_hash(raw_header), branch,
+                                        height) != root` -> `None` -> the handler reads again
   db.py       `header_branch_and_root`, `fs_block_hashes`, `read_headers` (bounded by
               `DB.state.height` *when the worker thread runs*), `flush_backup` / `backup_fs`
               (lowering `DB.state` and `header_mc.truncate(height + 1)`, in the order of the code)
@@ -19,8 +25,13 @@ The DB side.  `src` is the list of block hashes a reader can see (`fs_block_hash
 blocks flushed, `DB.state` raised) only happens when no back-out is half done (the block processor
 awaits the job).
 
-A request is a program counter over the awaits of `branch_and_root`.  Every
-`await self.source_func(start, count)` is cut into
+Headers are modelled by their hashes (`coin.header_hash(header)`, the leaves of the tree): the header
+file is `src`, and `read_headers(start, count)` returns `src[start : start+count]` clipped at
+`DB.state.height` (`srcSlice`).
+
+A request is a program counter over the awaits of the handler: `PC.hdr` (the handler's own
+`await read_headers`, via `raw_header` for `block_header`), then the awaits of `branch_and_root`.  Every
+`await self.source_func(start, count)` / `await read_headers(start, count)` is cut into
   issue    (the coroutine evaluates `start`, `count` and suspends;  `Rd.issued`)
   perform  (`Ev.perform i`: the worker thread runs `read_headers`: it returns
             `min(count, len(src) - start)` headers of `src` *as it is then*; `Rd.got` if that is
@@ -34,6 +45,9 @@ A request is a program counter over the awaits of `branch_and_root`.  Every
   retry = false      `branch_and_root` as pinned: one pass, no truncation check at the end (F19)
   lowerFirst = false `flush_backup` as pinned: `backup_fs` truncates first, `DB.state` is lowered
                      at the end of `flush_utxo_db` (F18)
+  hdrCheck = false   `block_header` / `block_headers` as pinned: the header read first is returned
+                     with whatever proof comes later (F24: no check that the branch folds from the
+                     header to the root, no second read)
 Ghost fields (never read by a transition): `St.ref`, `Req.seen`, `Req.bo`.
 No imports beyond the Merkle model (linked into `evdrv`).
 -/
@@ -44,6 +58,7 @@ structure Cfg where
   extFix : Bool := true
   retry : Bool := true
   lowerFirst : Bool := true
+  hdrCheck : Bool := true
 deriving Repr, DecidableEq
 
 /-- the current code -/
@@ -58,7 +73,14 @@ deriving Repr, DecidableEq
 inductive Res (Node : Type) where
   | answer (br : List (Elt Node)) (root : Node)
   | error (e : Err)
-  | refused                 -- `RPCError(BAD_REQUEST)` of the range check
+  | refused                 -- `RPCError(BAD_REQUEST)`: the range check, or no header at `height`
+  | plain                   -- a reply without proof: `cp_height == 0`, or no header to prove
+deriving Repr, DecidableEq
+
+/-- which handler -/
+inductive Handler where
+  | header                  -- `block_header(height, cp_height)`
+  | headers                 -- `block_headers(start_height, count, cp_height)`
 deriving Repr, DecidableEq
 
 /-- an `await source_func(start, count)` -/
@@ -69,6 +91,10 @@ inductive Rd (Node : Type) where
 deriving Repr, DecidableEq
 
 inductive PC (Node : Type) where
+  /-- in the handler, at `await self.session_mgr.raw_header(height)` resp.
+      `await self.db.read_headers(start_height, max_count)`; never `Rd.short`: `read_headers`
+      returns what there is -/
+  | hdr (rd : Rd Node)
   /-- in `_extend_to`, at `hashes = await self.source_func(start, length - start)`;
       `t`, `cl` = the locals `truncations`, `cached_length` -/
   | ext (t cl start : Nat) (rd : Rd Node)
@@ -82,13 +108,18 @@ deriving Repr, DecidableEq
 
 structure Req (Node : Type) where
   length : Nat              -- `cp_height + 1`
-  index : Nat               -- `height`
+  index : Nat               -- `height` of the header proven: `height` resp. `last_height`
   t0 : Nat                  -- `truncations` at the top of the current `while True:` iteration
   pc : PC Node
   /-- ghost: the values of `src` from the request's start to its end, newest first -/
   seen : List (List Node)
   /-- ghost: some back-out was half done, began or ended while the request was active -/
   bo : Bool
+  kind : Handler
+  first : Nat               -- `height` resp. `start_height`
+  count : Nat               -- `1` resp. `min(count, MAX_CHUNK_SIZE)`
+  /-- `raw_header` resp. `headers` of the current iteration of the handler, as hashes -/
+  hdrs : List Node
 
 structure St (Node : Type) where
   c : Cache Node := {}
@@ -102,7 +133,8 @@ structure St (Node : Type) where
   ref : List Node := []
 
 inductive Ev (Node : Type) where
-  | start (cp height : Nat)
+  | header (height cp : Nat)
+  | headers (first count cp : Nat)
   | perform (i : Nat)
   | deliver (i : Nat)
   | boBegin (n : Nat)
@@ -115,6 +147,13 @@ variable {Node : Type} (H : Node → Node → Node)
 def Req.active (r : Req Node) : Bool :=
   match r.pc with
   | .done _ => false
+  | _ => true
+
+/-- inside `_merkle_proof`, past its range check -/
+def Req.proving (r : Req Node) : Bool :=
+  match r.pc with
+  | .done _ => false
+  | .hdr _ => false
   | _ => true
 
 /-- ghost bookkeeping when `src` changes / a back-out event happens -/
@@ -187,6 +226,61 @@ def deliverReq [DecidableEq Node] (cfg : Cfg) (c : Cache Node) (T : Nat) (r : Re
   | .lvl _ _ .short => (c, { r with pc := .done (.error .dbError) })
   | _ => (c, r)
 
+/-- `_merkle_proof` from its range check (`max_height = self.db.state.height` is `vis - 1`) to the
+    first await of `branch_and_root` -/
+def enterProof (c : Cache Node) (T vis : Nat) (r : Req Node) : Req Node :=
+  if r.index < r.length ∧ r.length ≤ vis then beginIter c T r
+  else { r with pc := .done .refused }
+
+/-- the handler resumes with the headers it asked for and runs to its next await:
+    `block_header`: `DB.raw_header` raises `IndexError` (-> `RPCError`) unless exactly one header
+    came; `cp_height == 0`: the header alone is the reply; else `_merkle_proof(cp_height, height, …)`.
+    `block_headers`: `if count and cp_height:` `_merkle_proof(cp_height, start_height + count - 1, …)`.
+    (`index` is the height of the last header in hand; the code computes it only when it is needed.) -/
+def afterHdr (c : Cache Node) (T vis : Nat) (r : Req Node) (hs : List Node) : Req Node :=
+  match r.kind with
+  | .header =>
+    if hs.length ≠ 1 then { r with pc := .done .refused }
+    else if r.length = 1 then { r with hdrs := hs, index := r.first, pc := .done .plain }
+    else enterProof c T vis { r with hdrs := hs, index := r.first }
+  | .headers =>
+    if hs.length = 0 ∨ r.length = 1 then
+      { r with hdrs := hs, index := r.first + hs.length - 1, pc := .done .plain }
+    else enterProof c T vis { r with hdrs := hs, index := r.first + hs.length - 1 }
+
+/-- the elements of a classic (`tsc_format=False`) branch; it never contains the TSC marker
+    (C12 `bar_fold`) -/
+def branchNodes : List (Elt Node) → List Node
+  | [] => []
+  | .node x :: rest => x :: branchNodes rest
+  | .star :: rest => branchNodes rest
+
+/-- the end of `_merkle_proof`, and what the handler does with its result.  Current code:
+    `root_from_proof(header_hash(raw_header), branch, height)` (`raw_header` = the last header read,
+    `headers[-80:]`) must be the root, else `None` and the handler's `while True:` reads the
+    header(s) again; a `ValueError` of `root_from_proof` propagates.  Pinned code: no check. -/
+def afterProof [DecidableEq Node] (cfg : Cfg) (r : Req Node) : Req Node :=
+  match r.pc with
+  | .done (.answer br root) =>
+    if cfg.hdrCheck then
+      match r.hdrs.getLast? with
+      | none => { r with pc := .hdr .issued }
+      | some h =>
+        match rootFromProof H h (branchNodes br) r.index with
+        | .error e => { r with pc := .done (.error (.py e)) }
+        | .ok x => if x = root then r else { r with pc := .hdr .issued }
+    else r
+  | _ => r
+
+/-- the coroutine of request `r` (the whole handler) resumes with the result of its read -/
+def deliverAll [DecidableEq Node] (cfg : Cfg) (c : Cache Node) (T vis : Nat) (r : Req Node) :
+    Cache Node × Req Node :=
+  match r.pc with
+  | .done _ => (c, r)
+  | .hdr (.got hs) => (c, afterHdr c T vis r hs)
+  | .hdr _ => (c, r)
+  | _ => ((deliverReq H cfg c T r).1, afterProof H cfg (deliverReq H cfg c T r).2)
+
 /-- `(start, count)` of the read request `r` is waiting for a worker thread to perform -/
 def readArgs (c : Cache Node) (r : Req Node) : Option (Nat × Nat) :=
   match r.pc with
@@ -197,6 +291,7 @@ def readArgs (c : Cache Node) (r : Req Node) : Option (Nat × Nat) :=
 
 def setRd (pc : PC Node) (rd : Rd Node) : PC Node :=
   match pc with
+  | .hdr _ => .hdr rd
   | .ext t cl s _ => .ext t cl s rd
   | .leaf _ => .leaf rd
   | .lvl p l _ => .lvl p l rd
@@ -207,20 +302,28 @@ def setRd (pc : PC Node) (rd : Rd Node) : PC Node :=
 def readSrc (src : List Node) (start count : Nat) : Rd Node :=
   if count ≤ src.length - start then .got (srcSlice src start count) else .short
 
+/-- a worker thread performs the pending read of `r`: the handler's own `read_headers(first,
+    count)` returns the headers there are (`srcSlice` clips like `disk_count`), a read of
+    `fs_block_hashes` is all or nothing (`readSrc`) -/
 def performReq (c : Cache Node) (src : List Node) (r : Req Node) : Req Node :=
-  match readArgs c r with
-  | none => r
-  | some x => { r with pc := setRd r.pc (readSrc src x.1 x.2) }
+  match r.pc with
+  | .hdr .issued => { r with pc := .hdr (.got (srcSlice src r.first r.count)) }
+  | _ =>
+    match readArgs c r with
+    | none => r
+    | some x => { r with pc := setRd r.pc (readSrc src x.1 x.2) }
 
-/-- a new request: the range check of `_merkle_proof`, then `branch_and_root` to its first await -/
-def newReq (c : Cache Node) (T : Nat) (src : List Node) (halfDone : Bool) (cp height : Nat) : Req Node :=
-  if height ≤ cp ∧ cp < src.length then
-    beginIter c T { length := cp + 1, index := height, t0 := T, pc := .done .refused, seen := [src], bo := halfDone }
-  else { length := cp + 1, index := height, t0 := T, pc := .done .refused, seen := [src], bo := halfDone }
+/-- a new request: the handler runs to its first await, the read of the header(s) -/
+def newReq (T : Nat) (src : List Node) (halfDone : Bool) (kind : Handler) (first count cp : Nat) :
+    Req Node :=
+  { length := cp + 1, index := first, t0 := T, pc := .hdr .issued, seen := [src], bo := halfDone,
+    kind := kind, first := first, count := count, hdrs := [] }
 
 def step [DecidableEq Node] (cfg : Cfg) (s : St Node) : Ev Node → St Node
-  | .start cp height =>
-    { s with reqs := s.reqs ++ [newReq s.c s.truncations s.src s.pending.isSome cp height] }
+  | .header height cp =>
+    { s with reqs := s.reqs ++ [newReq s.truncations s.src s.pending.isSome .header height 1 cp] }
+  | .headers first count cp =>
+    { s with reqs := s.reqs ++ [newReq s.truncations s.src s.pending.isSome .headers first count cp] }
   | .perform i =>
     match s.reqs[i]? with
     | none => s
@@ -229,8 +332,8 @@ def step [DecidableEq Node] (cfg : Cfg) (s : St Node) : Ev Node → St Node
     match s.reqs[i]? with
     | none => s
     | some r =>
-      { s with c := (deliverReq H cfg s.c s.truncations r).1,
-               reqs := s.reqs.set i (deliverReq H cfg s.c s.truncations r).2 }
+      { s with c := (deliverAll H cfg s.c s.truncations s.src.length r).1,
+               reqs := s.reqs.set i (deliverAll H cfg s.c s.truncations s.src.length r).2 }
   | .boBegin n =>
     if s.pending = none ∧ 0 < n ∧ n < s.src.length then
       if cfg.lowerFirst then
@@ -258,6 +361,10 @@ def step [DecidableEq Node] (cfg : Cfg) (s : St Node) : Ev Node → St Node
 def run [DecidableEq Node] (cfg : Cfg) (s : St Node) (evs : List (Ev Node)) : St Node :=
   evs.foldl (step H cfg) s
 
+/-- `block_header(height, cp)` with nothing between the start, the read of the header and its
+    delivery: the request is at the range check of `_merkle_proof` at once -/
+def startAtomic (height cp i : Nat) : List (Ev Node) := [.header height cp, .perform i, .deliver i]
+
 /-- the property's clause for one finished request: an answer is the from-scratch branch and root
     of the first `length` hashes of a chain that was visible during the request -/
 def Req.Safe (r : Req Node) : Prop :=
@@ -265,6 +372,16 @@ def Req.Safe (r : Req Node) : Prop :=
   | .done (.answer br root) =>
     ∃ S ∈ r.seen, r.length ≤ S.length ∧
       branchAndRoot H (S.take r.length) (.int r.index) none false = .ok (br, root)
+  | _ => True
+
+/-- the clause for the reply as a whole (F24): the last header of the reply - the one the proof is
+    of - folds along the returned branch to the returned root, as the client will check -/
+def Req.Folds (r : Req Node) : Prop :=
+  match r.pc with
+  | .done (.answer br root) =>
+    match r.hdrs.getLast? with
+    | none => False
+    | some h => rootFromProof H h (branchNodes br) r.index = .ok root
   | _ => True
 
 end EV.HeaderCache
